@@ -77,7 +77,7 @@ impl NetNode {
     /// `spv`: a lite node (Configuration::is_spv_mode)
     pub fn new_with(key_index: u8, ncfg: NodeCfg, clock: Arc<AtomicU64>, static_peers: usize, batch_size: usize, io: MemIO, spv: bool) -> NetNode {
         let (pk, sk) = key(key_index);
-        let mut w = Wallet::new(sk, pk);
+        let mut w = det_wallet(sk, pk);
         w.core_version = Version::new(1, 2, 3);
         w.wallet_version = Version::new(1, 2, 3);
         let wallet_lock = Arc::new(RwLock::new(w));
